@@ -4,7 +4,7 @@ from vlib.common import Report
 from . import gen, run
 
 
-def generic(prop, tier, harnesses, only, what_for, bounds, functions, assumptions, timeout_s):
+def generic(prop, tier, harnesses, only, what_for, bounds, functions, assumptions, timeout_s, extra=None):
     rep = Report(prop, 'model_checking', './bin/check %s --tier %s' % (prop, tier))
     if only:
         harnesses = [h for h in harnesses if only in h[0]]
@@ -47,6 +47,8 @@ def generic(prop, tier, harnesses, only, what_for, bounds, functions, assumption
     rep.cov['functions_encoded'] = functions
     rep.cov['trusted_base'] = ['Kani 0.68 / CBMC 6.11 (cadical) on the crate compiled with --cfg risinglight_verif', 'unwinding assertions on; a kani::cover!(true) vacuity witness per harness']
     rep.assumptions = assumptions
+    if extra is not None and not only:
+        extra(rep)
     return rep.finish()
 
 
@@ -56,8 +58,9 @@ def c19(tier, only=None):
                    {'variants': 'Null, Bool, Int16, Int32, Int64, Float64, Date, Timestamp, TimestampTz, Interval(months, days), String and Blob of <= 2 bytes',
                     'operands': 'same-variant operands (plus NULL vs each variant); all payload values'},
                    ['<DataValue as PartialEq/Eq/PartialOrd/Ord/Hash> (derived) and the payload types\' impls', 'DataValue::{min, max}', 'SecondaryRowHandler <-> i64'],
-                   ['print/parse round trips, Decimal and Vector are outside (string formatting does not terminate under CBMC)',
-                    'agreement of the SQL comparison kernels with cmp on non-NULL values is decided under C14'], 2400 if thorough else 1500)
+                   ['print/parse round trips other than that of Interval, Decimal and Vector are outside (string formatting does not terminate under CBMC)',
+                    'agreement of the SQL comparison kernels with cmp on non-NULL values is decided under C14'], 2400 if thorough else 1500,
+                   extra=lambda rep: __import__('mirsmt.c19m', fromlist=['run']).run(rep, thorough))
 
 
 def c06(tier, only=None):
